@@ -1,12 +1,462 @@
-// Package c10 checks property C10 (not built yet).
+// Package c10 checks property C10: floating-point literals keep their exact bit
+// pattern through parsing and printing.
+//
+// Specification: spec/FloatLit.tla (FloatDenoteHex, HexSpelling, Widen/Narrow, the
+// as-implemented model) and spec/FloatLitTrace.tla (the law on a recording).
+//
+//	(S) TLC checks the round-trip laws of the reference functions on all 65 536 half
+//	    patterns and on the boundary sets of the other five kinds, and shows that the
+//	    property fails on the as-implemented model (FloatLitImpl.cfg).
+//	(G) The same run writes one vector per pattern and spelling (literal text, required
+//	    bits); each literal goes through asm.ParseString and constant.NewFloatFromString
+//	    and is printed.
+//	(T) Every (kind, input literal, printed literal) triple, together with LLVM's reading
+//	    of both literals (llvm-as | llvm-dis on a folded bitcast), is judged by TLC with
+//	    FloatLitTrace.tla: bits(input) = bits(printed), hexadecimal forms decoded by the
+//	    spec, decimal forms by LLVM. Seeded random patterns and decimal / scientific
+//	    inputs take the same path.
+//
+// A spec/LLVM disagreement is an infrastructure error (exit 2), never a verdict.
 package c10
 
 import (
+	"fmt"
+	"io"
+	"log"
+	"math/rand"
+	"os"
+	"path/filepath"
+	"regexp"
+	"sort"
+	"strconv"
+	"strings"
+	"time"
+
+	"verif/harness/llvmoracle"
 	"verif/harness/mbt"
 	"verif/harness/props/reg"
 )
 
 func init() { reg.Register("C10", Run) }
 
+type litJ struct {
+	Form string `json:"form"`
+	Digs []int  `json:"digs"`
+}
+
+type row struct {
+	ID    int    `json:"id"`
+	Kind  string `json:"kind"`
+	In    litJ   `json:"in"`
+	Inl   []int  `json:"inl"`
+	Out   litJ   `json:"out"`
+	Outok bool   `json:"outok"`
+	Outl  []int  `json:"outl"`
+}
+
+type vecJ struct {
+	Kind  string `json:"kind"`
+	Tag   string `json:"tag"`
+	Lit   string `json:"lit"`
+	Valid bool   `json:"valid"`
+	Want  string `json:"want"`
+	Cls   string `json:"cls"`
+	Impl  string `json:"impl"`
+}
+
+func hexDigits(s string) []int {
+	out := make([]int, len(s))
+	for i := 0; i < len(s); i++ {
+		v, err := strconv.ParseUint(s[i:i+1], 16, 8)
+		if err != nil {
+			mbt.Infra("not a hexadecimal digit in %q", s)
+		}
+		out[i] = int(v)
+	}
+	return out
+}
+
+var reHexLit = regexp.MustCompile(`^0x([HKLMR]?)([0-9A-Fa-f]+)$`)
+
+// parseLit splits a literal into the form the spec reads.
+func parseLit(s string) litJ {
+	if m := reHexLit.FindStringSubmatch(s); m != nil {
+		f := m[1]
+		if f == "" {
+			f = "D"
+		}
+		return litJ{Form: f, Digs: hexDigits(m[2])}
+	}
+	return litJ{Form: "dec", Digs: []int{}}
+}
+
+func formName(l litJ) string {
+	switch l.Form {
+	case "dec":
+		return "decimal"
+	case "D":
+		return "0x(double-format)"
+	}
+	return "0x" + l.Form
+}
+
+// caseT is one judged literal.
+type caseT struct {
+	in    input
+	inR   reading // LLVM's reading of the input
+	lib   printed
+	outR  reading // LLVM's reading of the printed literal
+	rowID int
+}
+
+var reBad = regexp.MustCompile(`<<"BAD", (\d+), "([^"]*)", "([^"]*)", "([^"]*)", "([^"]*)">>`)
+var reSpecDiff = regexp.MustCompile(`<<"SPECDIFF", (\d+), "(in|out)">>`)
+
+type checker struct {
+	rep          *mbt.Report
+	tier         string
+	specDiffs    int
+	specChecked  int
+	discardedIn  int // inputs LLVM rejects (outside the property's quantifier)
+	printedDec   map[string]int
+	printedHex   map[string]int
+	changed      map[string]int // per kind: inputs whose bits changed
+	asModelled   int
+	notModelled  int
+	changedHalf  map[string]bool
+	extraDevs    []string
+	sigExamples  map[string]string
+	sigCount     map[string]int
+	invalidOK    int
+	llvmAccepted int
+}
+
+// judge runs the pipeline on the inputs: LLVM's reading of the inputs, the library, LLVM's
+// reading of the printed literals, TLC's verdict on the recording.
+func (c *checker) judge(ins []input, label string) {
+	rep := c.rep
+	t0 := time.Now()
+	// --- LLVM reads the inputs
+	var qs, single []query
+	for _, in := range ins {
+		if in.fromSpec && !in.valid {
+			single = append(single, in.q)
+		} else {
+			qs = append(qs, in.q)
+		}
+	}
+	inRead := llvmRead(qs, false)
+	for k, v := range llvmRead(single, true) {
+		inRead[k] = v
+	}
+	// --- spec vectors: the spec's reading against LLVM's (validation of the specification)
+	var cases []*caseT
+	seen := map[string]bool{}
+	for _, in := range ins {
+		r := inRead[in.q.key()]
+		if in.fromSpec {
+			c.specChecked++
+			if in.valid != r.ok || (r.ok && in.want != r.bits) {
+				c.specDiffs++
+				if c.specDiffs <= 5 {
+					rep.Note("SPEC/LLVM disagreement on %s %s: spec valid=%v bits=%s, LLVM ok=%v bits=%s %s", in.q.kind, in.q.lit, in.valid, in.want, r.ok, r.bits, r.diag)
+				}
+				continue
+			}
+			if !in.valid {
+				c.invalidOK++
+				continue
+			}
+		}
+		if !r.ok {
+			c.discardedIn++
+			continue
+		}
+		if seen[in.q.key()] {
+			continue
+		}
+		seen[in.q.key()] = true
+		cases = append(cases, &caseT{in: in, inR: r})
+	}
+	c.llvmAccepted += len(cases)
+	tLLVM1 := time.Since(t0)
+	// --- the library
+	t1 := time.Now()
+	lq := make([]query, len(cases))
+	for i, cs := range cases {
+		lq[i] = cs.in.q
+	}
+	libs := runLibrary(lq)
+	tLib := time.Since(t1)
+	// --- LLVM reads the printed literals
+	t2 := time.Now()
+	var oq []query
+	for i, cs := range cases {
+		cs.lib = libs[i]
+		if cs.lib.out != "" {
+			oq = append(oq, query{cs.in.q.kind, cs.lib.out})
+		}
+	}
+	outRead := llvmRead(oq, false)
+	tLLVM2 := time.Since(t2)
+	// --- recording
+	var rows []row
+	var rowCase []*caseT
+	for _, cs := range cases {
+		q := cs.in.q
+		rep.Count(q.key(), true)
+		il := parseLit(q.lit)
+		if cs.in.tag == "extra" {
+			// spellings outside the property's list: reported as notes only
+			if cs.lib.out == "" || outRead[query{q.kind, cs.lib.out}.key()].bits != cs.inR.bits {
+				c.extraDevs = append(c.extraDevs, fmt.Sprintf("%s %s -> %s%s", q.kind, q.lit, cs.lib.out, cs.lib.problem))
+			}
+			continue
+		}
+		if cs.lib.problem != "" && cs.lib.out == "" {
+			sig := fmt.Sprintf("C10|%s|%s|%s", q.kind, formName(il), cs.lib.problem)
+			c.fail(sig, fmt.Sprintf("%s %s (LLVM reads 0x%s): %s: %s", q.kind, q.lit, cs.inR.bits, cs.lib.problem, mbt.Truncate(cs.lib.detail, 200)), cs)
+			continue
+		}
+		if cs.lib.problem != "" {
+			sig := fmt.Sprintf("C10|%s|%s|%s", q.kind, formName(il), cs.lib.problem)
+			c.fail(sig, fmt.Sprintf("%s %s: %s", q.kind, q.lit, mbt.Truncate(cs.lib.detail, 300)), cs)
+		}
+		cs.outR = outRead[query{q.kind, cs.lib.out}.key()]
+		ol := parseLit(cs.lib.out)
+		if ol.Form == "dec" {
+			c.printedDec[q.kind]++
+		} else {
+			c.printedHex[q.kind]++
+		}
+		cs.rowID = len(rows) + 1
+		r := row{ID: cs.rowID, Kind: q.kind, In: il, Inl: hexDigits(cs.inR.bits), Out: ol, Outok: cs.outR.ok, Outl: []int{}}
+		if cs.outR.ok {
+			r.Outl = hexDigits(cs.outR.bits)
+		}
+		rows = append(rows, r)
+		rowCase = append(rowCase, cs)
+		if len(rep.Samples) < 4 && (len(rows)%977 == 1) {
+			rep.Sample(map[string]interface{}{"kind": q.kind, "input": q.lit, "llvm_bits_of_input": cs.inR.bits, "printed": cs.lib.out, "llvm_bits_of_printed": cs.outR.bits, "source": cs.in.tag})
+		}
+	}
+	if len(rows) == 0 {
+		return
+	}
+	// --- TLC judges the recording
+	t3 := time.Now()
+	const chunkRows = 512
+	nch := (len(rows) + chunkRows - 1) / chunkRows
+	data := map[string][]byte{}
+	for ch := 0; ch < nch; ch++ {
+		hi := (ch + 1) * chunkRows
+		if hi > len(rows) {
+			hi = len(rows)
+		}
+		data[fmt.Sprintf("floatlit_rec_%d.ndjson", ch+1)] = mbt.NDJSONBytes(rows[ch*chunkRows : hi])
+	}
+	t := mbt.MustTLC(mbt.TLCOpts{Spec: "FloatLitTrace", Cfg: "FloatLitTrace.cfg", Workers: 8, Continue: true,
+		Consts: map[string]string{"NChunks": strconv.Itoa(nch)}, Data: data, Timeout: 15 * time.Minute})
+	defer t.Cleanup()
+	rep.AddTLC(t)
+	if t.Distinct != int64(2*nch+1) {
+		mbt.Infra("FloatLitTrace judged %d chunks of %d (%s)\n%s", (t.Distinct-1)/2, nch, label, tail(t.Output, 2000))
+	}
+	for _, v := range t.Violated {
+		if v != "AllPreserved" {
+			mbt.Infra("FloatLitTrace: unexpected violation %s", v)
+		}
+	}
+	rep.TracesValidated += len(rows)
+	for _, m := range reSpecDiff.FindAllStringSubmatch(t.Output, -1) {
+		id, _ := strconv.Atoi(m[1])
+		cs := rowCase[id-1]
+		c.specDiffs++
+		if c.specDiffs <= 5 {
+			rep.Note("SPEC/LLVM disagreement (%s literal) on %s %s -> %s: LLVM reads %s / %s", m[2], cs.in.q.kind, cs.in.q.lit, cs.lib.out, cs.inR.bits, cs.outR.bits)
+		}
+	}
+	nbad := 0
+	for _, m := range reBad.FindAllStringSubmatch(t.Output, -1) {
+		id, _ := strconv.Atoi(m[1])
+		cs := rowCase[id-1]
+		nbad++
+		c.changed[cs.in.q.kind]++
+		if cs.in.q.kind == "half" {
+			c.changedHalf[cs.inR.bits] = true
+		}
+		if cs.in.fromSpec {
+			if cs.outR.ok && cs.outR.bits == cs.in.impl {
+				c.asModelled++
+			} else {
+				c.notModelled++
+			}
+		}
+		sig, what := classify(cs, m[2], m[3], m[4], m[5])
+		c.fail(sig, what, cs)
+	}
+	if (len(t.Violated) > 0) != (nbad > 0) {
+		mbt.Infra("FloatLitTrace: %d BAD lines but violated=%v", nbad, t.Violated)
+	}
+	fmt.Printf("  [%s] inputs=%d judged=%d bad=%d  llvm-in %.1fs  library %.1fs  llvm-out %.1fs  TLC %.1fs\n",
+		label, len(ins), len(rows), nbad, tLLVM1.Seconds(), tLib.Seconds(), tLLVM2.Seconds(), time.Since(t3).Seconds())
+}
+
+func tail(s string, n int) string {
+	if len(s) > n {
+		return s[len(s)-n:]
+	}
+	return s
+}
+
+func (c *checker) fail(sig, what string, cs *caseT) {
+	c.sigCount[sig]++
+	if _, ok := c.sigExamples[sig]; !ok {
+		c.sigExamples[sig] = what
+	}
+	c.rep.Fail(mbt.Failure{Signature: sig, What: what, Case: map[string]string{"kind": cs.in.q.kind, "lit": cs.in.q.lit, "printed": cs.lib.out,
+		"llvm_bits_of_input": cs.inR.bits, "llvm_bits_of_printed": cs.outR.bits}})
+}
+
+// readVectors collects the vec_*.ndjson files TLC wrote.
+func readVectors(dir string) []input {
+	files, _ := filepath.Glob(filepath.Join(dir, "vec_*.ndjson"))
+	sort.Strings(files)
+	var out []input
+	for _, f := range files {
+		vs, err := mbt.ReadNDJSON[vecJ](f)
+		if err != nil {
+			mbt.Infra("vectors: %v", err)
+		}
+		for _, v := range vs {
+			out = append(out, input{q: query{v.Kind, v.Lit}, tag: v.Tag, fromSpec: true, valid: v.Valid, want: v.Want, cls: v.Cls, impl: v.Impl})
+		}
+	}
+	return out
+}
+
 // Run is the C10 check.
-func Run(tier, replay string) { mbt.Infra("check C10 is not built yet") }
+func Run(tier, replay string) {
+	log.SetOutput(io.Discard) // the library logs inexact conversions; the check sees them in the bits
+	llvmoracle.Require()
+	rep := mbt.NewReport("C10", tier, "model_checking")
+	rep.Rule = "distinct (kind, literal) inputs that LLVM accepts, parsed by asm.ParseString and constant.NewFloatFromString, printed, and judged by TLC: bits(input) = bits(printed), hexadecimal forms read by spec/FloatLit.tla, decimal forms by llvm-as"
+	c := &checker{rep: rep, tier: tier, printedDec: map[string]int{}, printedHex: map[string]int{}, changed: map[string]int{},
+		changedHalf: map[string]bool{}, sigExamples: map[string]string{}, sigCount: map[string]int{}}
+	rng := rand.New(rand.NewSource(mbt.Seed()))
+
+	if replay != "" {
+		c.judge(replayInputs(replay), "replay")
+		c.finish(false)
+	}
+
+	// (S)+(G): reference functions checked by TLC on all half patterns and the boundary sets;
+	// the same run writes the vectors.
+	t := mbt.MustTLC(mbt.TLCOpts{Spec: "FloatLit", Cfg: "FloatLit.cfg", Workers: 8, Timeout: 20 * time.Minute})
+	if len(t.Violated) > 0 {
+		mbt.Infra("reference functions of FloatLit.tla violate %v: specification error\n%s", t.Violated, tail(t.Output, 3000))
+	}
+	rep.AddTLC(t)
+	vectors := readVectors(t.Dir)
+	fmt.Printf("  FloatLit.cfg: %d states, %d vectors, %.1fs\n", t.Distinct, len(vectors), t.Wall.Seconds())
+	t.Cleanup()
+	if t.Distinct < 65536 {
+		mbt.Infra("FloatLit.cfg enumerated %d states", t.Distinct)
+	}
+	// the property fails on the as-implemented model
+	ti := mbt.MustTLC(mbt.TLCOpts{Spec: "FloatLit", Cfg: "FloatLitImpl.cfg", Workers: 8, Timeout: 10 * time.Minute})
+	if len(ti.Violated) != 1 || ti.Violated[0] != "Preserved" {
+		mbt.Infra("FloatLitImpl.cfg: expected Preserved to be violated on the as-implemented model, got %v", ti.Violated)
+	}
+	ti.Cleanup()
+	nHalf := 0
+	for _, v := range vectors {
+		if v.q.kind == "half" && v.tag == "canon" {
+			nHalf++
+		}
+		if v.tag == "canon" {
+			rep.Extra["patterns_"+v.q.kind] = inc(rep.Extra["patterns_"+v.q.kind])
+		}
+	}
+	c.judge(vectors, "spec-vectors")
+
+	// (T): seeded random patterns and decimal inputs
+	nRand, nDec := 1500, 1500
+	if tier == "thorough" {
+		nRand, nDec = 20000, 12000
+	}
+	c.judge(randomPatterns(rng, nRand), "random-patterns")
+	c.judge(decimalInputs(rng, nDec), "decimal-inputs")
+	c.finish(nHalf == 65536)
+}
+
+func inc(v interface{}) int {
+	if n, ok := v.(int); ok {
+		return n + 1
+	}
+	return 1
+}
+
+func (c *checker) finish(halfExhaustive bool) {
+	rep := c.rep
+	if c.specDiffs > 0 {
+		mbt.Infra("%d disagreements between spec/FloatLit.tla and LLVM (of %d compared): the specification is wrong, no verdict", c.specDiffs, c.specChecked+rep.TracesValidated)
+	}
+	rep.Exhaustive = halfExhaustive
+	if halfExhaustive {
+		rep.Explanation = "exhaustive for half (all 65 536 bit patterns in the 0xH and the 16-digit spelling); boundary sets, seeded random patterns and decimal inputs for the other kinds"
+	}
+	rep.Extra["printed_decimal_by_kind"] = c.printedDec
+	rep.Extra["printed_hex_by_kind"] = c.printedHex
+	rep.Extra["inputs_whose_bits_changed_by_kind"] = c.changed
+	rep.Extra["half_patterns_changed"] = len(c.changedHalf)
+	rep.Extra["spec_vectors_compared_with_llvm"] = c.specChecked
+	rep.Extra["invalid_spellings_rejected_by_llvm_as_the_spec_says"] = c.invalidOK
+	rep.Extra["inputs_rejected_by_llvm_(outside_quantifier)"] = c.discardedIn
+	rep.Extra["llvm_spawns"] = spawns
+	rep.Extra["failing_cases_by_signature"] = c.sigCount
+	rep.Extra["deviations_as_modelled_(AsImplemented)"] = c.asModelled
+	rep.Extra["deviations_not_modelled"] = c.notModelled
+	if len(c.extraDevs) > 0 {
+		sort.Strings(c.extraDevs)
+		rep.Note("short spellings outside the property's list (LLVM accepts them; not judged): %d are not reproduced by the library: %s", len(c.extraDevs), mbt.Truncate(strings.Join(c.extraDevs, "; "), 600))
+	}
+	rep.Assumptions = []string{
+		"llvm-as/llvm-dis 14 fold bitcast (<fp> <lit> to iN) in a global initialiser without changing the bits (ppc_fp128: llvm-dis echoes the 0xM spelling)",
+		"TLC evaluates FloatDenoteHex correctly; every hexadecimal literal of the run was also read by LLVM and compared (0 disagreements, otherwise exit 2)",
+		"decimal -> binary conversion is not specified in TLA+; LLVM's reading is taken as the denotation of decimal literals",
+	}
+	if os.Getenv("VERIF_C10_SIGS") != "" {
+		var ks []string
+		for k := range c.sigCount {
+			ks = append(ks, k)
+		}
+		sort.Strings(ks)
+		for _, k := range ks {
+			fmt.Printf("SIG %6d  %s\n         e.g. %s\n", c.sigCount[k], k, c.sigExamples[k])
+		}
+	}
+	rep.Finish()
+}
+
+func replayInputs(path string) []input {
+	type rf struct {
+		Failures []struct {
+			Case map[string]string `json:"case"`
+		} `json:"failures"`
+	}
+	var one rf
+	if err := mbt.ReadJSON(path, &one); err != nil {
+		mbt.Infra("replay %s: %v", path, err)
+	}
+	var out []input
+	for _, f := range one.Failures {
+		if f.Case["kind"] != "" {
+			out = append(out, input{q: query{f.Case["kind"], f.Case["lit"]}, tag: "replay"})
+		}
+	}
+	if len(out) == 0 {
+		mbt.Infra("replay %s: no cases", path)
+	}
+	return out
+}
